@@ -192,3 +192,79 @@ Proof.
   induction msgs as [|m r IH]; intros k offset incr; [reflexivity|]. cbn [expected map snd]. f_equal.
   rewrite (IH _ (offset + incr) incr). symmetry. apply IH.
 Qed.
+
+(* ------------------------------------------------------------------ the producer's path: create_message_set
+   (requests = (key, [payload...])) -> _encode_message_set -> decode gives back exactly the (key, payload) pairs *)
+Definition kv (m : message) : option (list Z) * option (list Z) := (m_key m, m_value m).
+Definition kv_ok (p : option (list Z) * option (list Z)) : bool := obytes_ok (fst p) && obytes_ok (snd p).
+
+Lemma map_snd_combine_seq {A} (l : list A) : forall s, map snd (combine (seq s (length l)) l) = l.
+Proof. induction l as [|x l IH]; intros s; [reflexivity|]. cbn [length seq combine map snd]. now rewrite IH. Qed.
+
+Lemma create_messages_kv clock reqs magic : map kv (create_messages clock reqs magic) = flatten_requests reqs.
+Proof.
+  unfold create_messages. rewrite map_map.
+  transitivity (map snd (combine (seq 0 (length (flatten_requests reqs))) (flatten_requests reqs)));
+    [|apply map_snd_combine_seq].
+  apply map_ext. intros [i [k p]]. unfold kv, create_message. cbn [fst snd].
+  destruct ((if magic =? 1 then 1 else 0) =? 1); reflexivity.
+Qed.
+
+Lemma create_messages_plain clock reqs magic :
+  forallb kv_ok (flatten_requests reqs) = true -> forallb plain (create_messages clock reqs magic) = true.
+Proof.
+  intros H. apply forallb_forall. intros m I.
+  assert (Ik : In (kv m) (flatten_requests reqs)) by (rewrite <- (create_messages_kv clock reqs magic); now apply in_map).
+  rewrite forallb_forall in H. specialize (H _ Ik). unfold kv_ok, kv in H. cbn [fst snd] in H.
+  apply andb_prop in H. destruct H as [Hk Hv].
+  unfold create_messages in I. apply in_map_iff in I. destruct I as ([i [k p]] & <- & _).
+  unfold plain, create_message in *. cbn [fst snd] in *.
+  destruct ((if magic =? 1 then 1 else 0) =? 1); cbn [m_attr m_key m_value] in *; now rewrite Hk, Hv.
+Qed.
+
+Lemma expected_kv clock msgs : forall k offset incr, map (fun om => kv (snd om)) (expected clock k msgs offset incr) = map kv msgs.
+Proof. induction msgs as [|m r IH]; intros k offset incr; [reflexivity|]. cbn [expected map snd]. now rewrite IH. Qed.
+
+(* uncompressed *)
+Theorem producer_plain_roundtrip d orc clock reqs magic ws k' off incr mg bs :
+  forallb kv_ok (flatten_requests reqs) = true ->
+  create_message_set orc clock reqs CODEC_NONE magic = Ok ws ->
+  encode_message_set_from clock k' ws off incr mg = Ok bs ->
+  exists ys, dec_set (S d) orc bs = (ys, None) /\ map (fun om => kv (snd om)) ys = flatten_requests reqs.
+Proof.
+  intros Hb Hc He. unfold create_message_set in Hc. change (CODEC_NONE =? CODEC_NONE) with true in Hc. cbv iota in Hc.
+  injection Hc as <-. eexists. split.
+  - apply (complete_set d orc clock k' (create_messages clock reqs magic) off incr mg bs); [now apply create_messages_plain|exact He].
+  - now rewrite expected_kv, create_messages_kv.
+Qed.
+
+(* gzip: one wrapper; a format-1 wrapper reports every message at the wrapper's offset, a format-0 wrapper at the
+   stored inner offset 0 *)
+Theorem producer_gzip_roundtrip d orc clock reqs magic ws k' off incr mg bs :
+  (forall x z, bytes_ok x = true -> gz_enc orc x = Ok z -> gz_dec orc z = Ok x /\ bytes_ok z = true) ->
+  forallb kv_ok (flatten_requests reqs) = true ->
+  create_message_set orc clock reqs CODEC_GZIP magic = Ok ws ->
+  encode_message_set_from clock k' ws off incr mg = Ok bs ->
+  exists ys, dec_set (S (S d)) orc bs = (ys, None) /\ map (fun om => kv (snd om)) ys = flatten_requests reqs
+             /\ Forall (fun om => fst om = if (magic =? 0) then 0 else off) ys.
+Proof.
+  intros Hgz Hb Hc He. unfold create_message_set in Hc.
+  change (CODEC_GZIP =? CODEC_NONE) with false in Hc. change (CODEC_GZIP =? CODEC_GZIP) with true in Hc. cbv iota in Hc.
+  set (msgs := create_messages clock reqs magic) in *.
+  set (k := if magic =? 1 then length msgs else 0%nat) in *.
+  destruct (create_gzip_message orc clock k msgs magic) as [w|] eqn:Hw; cbn [bind] in Hc; [|discriminate].
+  injection Hc as <-.
+  pose proof (create_messages_plain clock reqs magic Hb) as Hp. fold msgs in Hp.
+  rewrite (gzip_set_roundtrip orc Hgz d clock k k' msgs magic w off incr mg bs Hp Hw He).
+  pose proof (expected_zero_offsets clock msgs k) as Hz.
+  assert (Hall : Forall (fun om : omsg => fst om = 0) (expected clock k msgs 0 0)).
+  { apply Forall_forall. intros [o m] I.
+    assert (Io : In o (map fst (expected clock k msgs 0 0))) by (apply in_map_iff; exists (o, m); auto).
+    rewrite Hz in Io. apply in_map_iff in Io. destruct Io as (_ & <- & _). reflexivity. }
+  destruct (magic =? 0).
+  - eexists. split; [reflexivity|]. split; [|exact Hall].
+    rewrite expected_kv. apply create_messages_kv.
+  - eexists. split; [reflexivity|]. rewrite (absolute_zero off _ Hall). split.
+    + rewrite map_map. cbn [snd]. rewrite expected_kv. apply create_messages_kv.
+    + apply Forall_forall. intros om I. apply in_map_iff in I. destruct I as (x & <- & _). reflexivity.
+Qed.
